@@ -1,6 +1,6 @@
 (* Engine/Check.v — correspondence checker for the engine family (C04 C05 C11–C14, C09):
    an observation of one real call (globally sequenced start/end trace, error flag,
-   result-map keys, crash/hang flag) is compared, inside Coq, with
+   result-map entries (key, value; None = nil), crash/hang flag) is compared, inside Coq, with
    (a) the specification [spec_outcome]  — codes 1..4: the property fails on this input;
    (b) the generated skeleton's semantics [run_prog (gen e)] — codes 11..14: the model
        regenerated from the source does not describe what the code did. *)
@@ -14,12 +14,47 @@ Record ecase := mkEC {
   ec_cfg   : cfg;
   ec_trace : list ev;
   ec_err   : bool;
-  ec_keys  : list string;
+  ec_entries : list (string * option Z);   (* the entries of the returned map: rule name, value (None = nil) *)
   ec_crash : bool          (* the call panicked, killed the process or did not return *)
 }.
 
 Definition set_eqb (a b : list string) : bool :=
   (forallb (fun x => existsb (String.eqb x) b) a && forallb (fun x => existsb (String.eqb x) a) b)%bool.
+
+(* two entry lists read as finite maps: the same keys, every key bound to the same value.
+   Symmetric; on the model side the keys are unique (Engine/Meaning.v, result_entries_nodup), so an
+   observation that binds one key to two values, misses a key, has an extra key or binds a key to
+   another value is rejected. *)
+Definition entries_eqb (a b : list (string * option Z)) : bool :=
+  (forallb (fun x => existsb (entry_eqb x) b) a && forallb (fun x => existsb (entry_eqb x) a) b)%bool.
+
+Lemma oz_eqb_eq a b : oz_eqb a b = true <-> a = b.
+Proof.
+  destruct a as [x|], b as [y|]; cbn [oz_eqb]; try (split; congruence).
+  rewrite Z.eqb_eq. split; congruence.
+Qed.
+
+Lemma entry_eqb_eq a b : entry_eqb a b = true <-> a = b.
+Proof.
+  destruct a as [n v], b as [n' v']. unfold entry_eqb. cbn [fst snd].
+  rewrite andb_true_iff, String.eqb_eq, oz_eqb_eq. split; [intros [-> ->]; reflexivity | intros [= -> ->]; auto].
+Qed.
+
+Lemma entries_eqb_spec a b :
+  entries_eqb a b = true <-> (forall n v, In (n, v) a <-> In (n, v) b).
+Proof.
+  unfold entries_eqb. rewrite andb_true_iff, !forallb_forall.
+  assert (X : forall x l, existsb (entry_eqb x) l = true <-> In x l).
+  { intros x l. rewrite existsb_exists. split.
+    - intros (y & Hy & E). apply entry_eqb_eq in E. now subst.
+    - intro H. exists x. split; [exact H | now apply entry_eqb_eq]. }
+  split.
+  - intros [H1 H2] n v. split; intro H; [apply X, H1, H | apply X, H2, H].
+  - intro H. split; intros [n v] Hx; apply X, H, Hx.
+Qed.
+
+Lemma entries_eqb_sym a b : entries_eqb a b = entries_eqb b a.
+Proof. unfold entries_eqb. apply andb_comm. Qed.
 
 Definition flag (b : bool) (code : nat) : list nat := if b then [] else [code].
 
@@ -29,7 +64,7 @@ Definition against (o : outcome) (k : ecase) (off : nat) : list nat :=
     if ec_crash k then [off + 1]
     else flag (accepts (o_segs o) (ec_trace k)) (off + 2) ++
          flag (Bool.eqb (o_err o) (ec_err k)) (off + 3) ++
-         flag (match o_map o with Some m => set_eqb m (ec_keys k) | None => false end) (off + 4)
+         flag (match o_map o with Some m => entries_eqb m (ec_entries k) | None => false end) (off + 4)
   | _ => (* the model itself predicts a crash / hang / is not defined here *)
     if ec_crash k then [] else [off + 5]
   end.
